@@ -208,13 +208,19 @@ func runProofs(b *harness.B, era string, part int) {
 	sizes := sizesFor(b, part)
 	perSize := b.Pick(2, 6)
 	type job struct {
-		size int
-		data []byte
+		size     int
+		data     []byte
+		zeroRoot bool // the contract commits the all-zero hash as the root of a non-empty file
 	}
 	var jobs []job
+	if v2 {
+		for _, sz := range []int{256, 100, 64 * 5} {
+			jobs = append(jobs, job{sz, randData(rng, sz), true})
+		}
+	}
 	for _, sz := range sizes {
 		for k := 0; k < perSize; k++ {
-			jobs = append(jobs, job{sz, randData(rng, sz)})
+			jobs = append(jobs, job{sz, randData(rng, sz), false})
 		}
 	}
 	const perBlock = 6
@@ -251,7 +257,7 @@ func runProofs(b *harness.B, era string, part int) {
 				}
 				var grp []job
 				for _, sz := range []int{64, 64, 128, 0, 100, 192} {
-					grp = append(grp, job{sz, randData(rng, sz)})
+					grp = append(grp, job{sz, randData(rng, sz), false})
 				}
 				doGroup(grp, eraOf(tgt))
 				b.Count("proofs_offered_at_era_boundary_heights", 1)
@@ -269,7 +275,7 @@ func runProofs(b *harness.B, era string, part int) {
 		if v2 {
 			specs := make([]chaingen.V2ContractSpec, len(grp))
 			for i, j := range grp {
-				specs[i] = chaingen.V2ContractSpec{Data: j.data, ProofHeight: H + 1, ExpirationHeight: H + 4}
+				specs[i] = chaingen.V2ContractSpec{Data: j.data, ProofHeight: H + 1, ExpirationHeight: H + 4, ZeroRoot: j.zeroRoot}
 			}
 			blk, bs, ids, err = c.BlockWithV2Contracts(specs)
 		} else {
@@ -326,6 +332,33 @@ func runProofs(b *harness.B, era string, part int) {
 					b.Count(fmt.Sprintf("observed:empty-file-proof-accepted=%v/era-%s", verdict, era), 1)
 					b.Eval(1)
 					b.Distinct(era, "empty-file")
+				}
+				continue
+			}
+			if j.zeroRoot {
+				// no data hashes to the committed root: whatever is offered proves "other data"
+				honest := refmodel.Proof(refmodel.FileLeaves(j.data), int(idx))
+				for _, pc := range []proofCase{
+					{"arbitrary-leaf-no-hashes", [64]byte{0xde, 0xad, 0xbe, 0xef}, nil, "must-reject"},
+					{"zero-leaf-no-hashes", [64]byte{}, nil, "must-reject"},
+					{"honest-leaf-one-hash-short", refmodel.FileSegment(j.data, int(idx)), toH(honest[:max(len(honest)-1, 0)]), "must-reject"},
+					{"honest-proof-of-the-data", refmodel.FileSegment(j.data, int(idx)), toH(honest), "must-reject"},
+				} {
+					blk, bs, err := mk(pc, id)
+					if err != nil {
+						continue
+					}
+					verr := consensus.ValidateBlock(cs, blk, bs)
+					b.Eval(1)
+					b.Count("zero_root_contract_proofs_offered", 1)
+					b.Distinct(era, "zero-root", pc.name, nLeaves)
+					if verr == nil {
+						b.Violate("C07/storage-proof/corrupted-proof-accepted/contract-committing-the-zero-hash-as-root/"+pc.name+"/era-"+era,
+							fmt.Sprintf("a v2 contract commits the all-zero hash as the root of a %d-byte file (%d leaves, challenged leaf %d); the proof %q, which does not hash to that root, is accepted", j.size, nLeaves, idx, pc.name),
+							map[string]any{"size": j.size, "index": idx, "case": pc.name})
+					} else {
+						b.Count("corrupted_proofs_rejected", 1)
+					}
 				}
 				continue
 			}
